@@ -1090,7 +1090,13 @@ func (g *Gen) evalCall(x *CExpr, env *Env) (Val, error) {
 			return Val{}, err
 		}
 		if len(args) == 1 && args[0].S == "Str" {
-			return args[0], nil
+			v := args[0]
+			if name == "bytes" {
+				v.Ty = types.NewSlice(types.Typ[types.Uint8])
+			} else {
+				v.Ty = types.Typ[types.String]
+			}
+			return v, nil
 		}
 	case "int64", "int", "uint64":
 		if err := evalArgs(); err != nil {
